@@ -5,9 +5,11 @@
 
    A container is `C msg_type items`, items an insertion-ordered list (key string, value);
    `keys c = map fst (items c)`; mutating methods return (container afterwards, outcome).
-   Parts of the property that the faithful model violates are kept visible: the part that holds
-   is a `_partial` theorem whose hypothesis is the negation of a known-finding class, the rest
-   is a `_refuted` theorem with a witness (DESIGN.md ledger D18). *)
+   The model describes message.py with the four repairs fixes/C18-*.patch applied (dict equality
+   ignores the framing tags, add_group on a plain tag, get_group_by_index below -len, integer
+   check of group tags).  One part of the property is still violated (equality with a container
+   is equality of rendered text, D18): the part that holds is `C18_eq_iff_content_partial`, whose
+   hypothesis is the negation of the known-finding class, the rest is `C18_eq_collision_refuted`. *)
 From Coq Require Import ZArith NArith List Bool.
 From AF Require Import Base.Sx Py.Str Fix.Container Fix.ContainerRun Lemmas.ContainerL.
 From AFGen Require Import GenEnums.
@@ -144,13 +146,16 @@ Theorem C18_delete_readd_at_end : forall t s r c c1,
 Proof. exact del_then_set_at_end. Qed.
 Print Assumptions C18_delete_readd_at_end.
 
-(* keys are unique in every variable and every nested container after every operation sequence
-   (wfc: NoDup keys at every depth) *)
+(* keys are unique and integer in every variable and every nested container after every operation
+   sequence (wfc: NoDup keys and int()-accepted keys at every depth) *)
 Theorem C18_keys_unique : forall n ops, Forall wfc (run_state n ops).
 Proof. exact reachable_wf. Qed.
 Print Assumptions C18_keys_unique.
 
-Theorem C18_keys_unique_top : forall n ops c, In c (run_state n ops) -> NoDup (keys c).
+(* wfc also says that every key is an integer key: since set, set_group and add_group all refuse a
+   non-integer tag, no such key is ever stored *)
+Theorem C18_keys_unique_top : forall n ops c,
+  In c (run_state n ops) -> NoDup (keys c) /\ Forall (fun k => key_ok k = true) (keys c).
 Proof. exact reachable_unique_keys. Qed.
 Print Assumptions C18_keys_unique_top.
 
@@ -209,53 +214,65 @@ Theorem C18_add_group_then_list : forall t it idx c c',
 Proof. exact add_group_then_list. Qed.
 Print Assumptions C18_add_group_then_list.
 
-(* add_group succeeds on a missing tag or a group tag *)
-Theorem C18_add_group_partial : forall t it idx c,
-  (forall s, lookup (tag_str t) (items c) <> Some (VStr s)) ->
-  (forall k x, lookup (tag_str t) (items c) <> Some (VCls k x)) ->
+(* add_group succeeds exactly on an integer tag that is missing or a group *)
+Theorem C18_add_group_succeeds : forall t it idx c,
+  tag_ok t = true -> c_is_group t c <> Some false ->
   let g := match c_get_group_list t c with Ok g => g | Exc _ => [] end in
   c_add_group t (Ok it) idx c =
     (with_items c (assign (tag_str t) (VGrp (py_insert idx it g)) (items c)), Ok tt).
 Proof. exact add_group_ok. Qed.
-Print Assumptions C18_add_group_partial.
+Print Assumptions C18_add_group_succeeds.
 
+(* a refused add_group changes nothing; the reasons: non-integer tag (FIXMessageError), the item
+   is not a container / its dict cannot be built (that error), or the tag holds a plain value
+   (FIXMessageError; was AttributeError before fixes/C18-add-group-on-plain-tag.patch) *)
 Theorem C18_add_group_refused_unchanged : forall t item idx c c' e,
-  c_add_group t item idx c = (c', Exc e) -> c' = c.
+  c_add_group t item idx c = (c', Exc e) ->
+  c' = c /\
+  ((e = EFIXMessage /\ tag_ok t = false) \/
+   (tag_ok t = true /\ item = Exc e) \/
+   (e = EFIXMessage /\ tag_ok t = true /\ c_is_group t c = Some false)).
 Proof. exact add_group_refused. Qed.
 Print Assumptions C18_add_group_refused_unchanged.
 
-(* D18: on a plain tag the refusal is an AttributeError, not a library error *)
-Theorem C18_add_group_plain_refuted :
-  exists t it c, c_is_group t c = Some false /\ c_add_group t (Ok it) (-1) c = (c, Exc EAttributeError).
-Proof. exact add_group_plain. Qed.
-Print Assumptions C18_add_group_plain_refuted.
-
-Theorem C18_add_group_plain_class : forall t it idx c s,
-  lookup (tag_str t) (items c) = Some (VStr s) -> c_add_group t (Ok it) idx c = (c, Exc EAttributeError).
+Theorem C18_add_group_plain_refused : forall t item idx c,
+  c_is_group t c = Some false ->
+  exists e, c_add_group t item idx c = (c, Exc e) /\ (e = EFIXMessage \/ item = Exc e).
 Proof. exact add_group_on_plain. Qed.
-Print Assumptions C18_add_group_plain_class.
+Print Assumptions C18_add_group_plain_refused.
 
-(* a refused set_group (existing tag: DuplicatedTagError; bad item: its error) changes nothing *)
+(* a refused set_group (non-integer tag: FIXMessageError; existing tag: DuplicatedTagError; bad
+   item: its error) changes nothing *)
 Theorem C18_set_group_refused_unchanged : forall t g c c' e,
   c_set_group t g c = (c', Exc e) ->
-  c' = c /\ ((e = EDuplicatedTag /\ c_contains t c = true) \/ (c_contains t c = false /\ g = Exc e)).
+  c' = c /\
+  ((e = EFIXMessage /\ tag_ok t = false) \/
+   (e = EDuplicatedTag /\ tag_ok t = true /\ c_contains t c = true) \/
+   (tag_ok t = true /\ c_contains t c = false /\ g = Exc e)).
 Proof. exact set_group_refused. Qed.
 Print Assumptions C18_set_group_refused_unchanged.
 
+Theorem C18_set_group_succeeds : forall t g c,
+  tag_ok t = true -> c_contains t c = false ->
+  c_set_group t (Ok g) c = (with_items c (items c ++ [(tag_str t, VGrp g)]), Ok tt).
+Proof. exact set_group_ok. Qed.
+Print Assumptions C18_set_group_succeeds.
+
 Theorem C18_set_group_then_list : forall t g c c',
-  c_set_group t (Ok g) c = (c', Ok tt) -> c_get_group_list t c' = Ok g /\ keys c' = keys c ++ [tag_str t].
+  c_set_group t (Ok g) c = (c', Ok tt) ->
+  tag_ok t = true /\ c_get_group_list t c' = Ok g /\ keys c' = keys c ++ [tag_str t].
 Proof. exact set_group_then_list. Qed.
 Print Assumptions C18_set_group_then_list.
 
-(* set_group / add_group never validate the tag: known finding C18-group-tag-not-validated *)
-Theorem C18_group_nonint_tag_refuted :
-  exists t c', tag_ok t = false /\ c_set_group t (Ok []) empty = (c', Ok tt) /\ c_contains t c' = true
-               /\ c_add_group t (Ok empty) (-1) empty = (C None [(tag_str t, VGrp [empty])], Ok tt)
-               /\ c_query [] c' = Exc EValueError.
+(* non-integer tags are refused as group tags too (fixes/C18-group-tag-validated.patch) *)
+Theorem C18_group_nonint_tag_refused : forall t,
+  tag_ok t = false ->
+  (forall g c, c_set_group t g c = (c, Exc EFIXMessage)) /\
+  (forall it idx c, c_add_group t it idx c = (c, Exc EFIXMessage)).
 Proof. exact group_nonint_tag. Qed.
-Print Assumptions C18_group_nonint_tag_refuted.
+Print Assumptions C18_group_nonint_tag_refused.
 
-(* get_group_by_index: Python indexing from -len to len-1, TagNotFoundError from len upwards *)
+(* get_group_by_index: Python indexing from -len to len-1, TagNotFoundError outside *)
 Theorem C18_group_by_index_nonneg : forall t idx c g,
   c_get_group_list t c = Ok g -> (0 <= idx < Z.of_nat (length g))%Z ->
   exists x, nth_error g (Z.to_nat idx) = Some x /\ c_get_group_by_index t idx c = Ok x.
@@ -269,29 +286,23 @@ Theorem C18_group_by_index_negative : forall t idx c g,
 Proof. exact group_by_index_negative. Qed.
 Print Assumptions C18_group_by_index_negative.
 
-Theorem C18_group_by_index_high : forall t idx c g,
-  c_get_group_list t c = Ok g -> (Z.of_nat (length g) <= idx)%Z ->
+(* outside [-len, len): TagNotFoundError on both sides (fixes/C18-group-index-below-minus-len.patch) *)
+Theorem C18_group_by_index_out_of_range : forall t idx c g,
+  c_get_group_list t c = Ok g -> (Z.of_nat (length g) <= idx \/ idx < - Z.of_nat (length g))%Z ->
   c_get_group_by_index t idx c = Exc ETagNotFound.
-Proof. exact group_by_index_high. Qed.
-Print Assumptions C18_group_by_index_high.
+Proof. exact group_by_index_out_of_range. Qed.
+Print Assumptions C18_group_by_index_out_of_range.
 
 Theorem C18_group_by_index_no_group : forall t idx c e,
   c_get_group_list t c = Exc e -> c_get_group_by_index t idx c = Exc e.
 Proof. exact group_by_index_no_group. Qed.
 Print Assumptions C18_group_by_index_no_group.
 
-(* D18: below -len the IndexError of the list escapes (for every such index) *)
-Theorem C18_group_index_class : forall t idx c g,
-  c_get_group_list t c = Ok g -> (idx < - Z.of_nat (length g))%Z ->
-  c_get_group_by_index t idx c = Exc EIndexError.
-Proof. exact group_by_index_low. Qed.
-Print Assumptions C18_group_index_class.
-
-Theorem C18_group_index_refuted :
-  exists t idx c g, c_get_group_list t c = Ok g /\ (idx < - Z.of_nat (length g))%Z
-                    /\ c_get_group_by_index t idx c = Exc EIndexError.
-Proof. exact group_index_below. Qed.
-Print Assumptions C18_group_index_refuted.
+(* for every index and every container the only errors are the two documented ones *)
+Theorem C18_group_by_index_errors : forall t idx c e,
+  c_get_group_by_index t idx c = Exc e -> e = ETagNotFound \/ e = EUnmappedGrp.
+Proof. exact group_by_index_errors. Qed.
+Print Assumptions C18_group_by_index_errors.
 
 (* get_group_by_tag returns the first item in index order whose inner tag holds the value;
    TagNotFoundError exactly when no item does (items whose inner tag is plain or missing) *)
@@ -355,41 +366,37 @@ Print Assumptions C18_eq_content_refuted.
 
 (* ------------------------------------------------------------------ equality with a dict *)
 
-(* full statement:  forall other c, dict_content_eq other c <-> c_eq_dict other c = Ok true  -- refuted *)
-Theorem C18_eq_dict_true_iff : forall other c,
-  c_eq_dict other c = Ok true <-> same_core_keys other c /\ Forall (holds_pair c) other.
-Proof. exact eq_dict_true_iff. Qed.
-Print Assumptions C18_eq_dict_true_iff.
+(* full strength (fixes/C18-eq-dict-ignores-framing-tags.patch): == dict is True exactly when tags
+   and values are the same, the framing tags 8, 9, 10, 35 ignored on both sides *)
+Theorem C18_eq_dict_iff : forall other c, c_eq_dict other c = Ok true <-> dict_content_eq other c.
+Proof. exact eq_dict_iff. Qed.
+Print Assumptions C18_eq_dict_iff.
 
-(* outside the known class (the dict names one of the framing tags 8, 9, 10, 35) equality with a
-   dict is True exactly when tags and values are the same, the framing tags of the message ignored *)
-Theorem C18_eq_dict_partial : forall other c,
-  framing_free other -> (c_eq_dict other c = Ok true <-> dict_content_eq other c).
-Proof. exact eq_dict_partial. Qed.
-Print Assumptions C18_eq_dict_partial.
-
-(* ... and it returns a bool when the message holds plain values only *)
-Theorem C18_eq_dict_total_partial : forall other c,
-  framing_free other -> Forall (fun kv => exists s, snd kv = VStr s) (items c) ->
-  exists b, c_eq_dict other c = Ok b.
+(* it returns a bool when the message holds plain values only ... *)
+Theorem C18_eq_dict_total : forall other c,
+  Forall (fun kv => exists s, snd kv = VStr s) (items c) -> exists b, c_eq_dict other c = Ok b.
 Proof. exact eq_dict_total. Qed.
-Print Assumptions C18_eq_dict_total_partial.
+Print Assumptions C18_eq_dict_total.
 
-(* D18: FIXMessage("D", {1: "a"}) == {35: "D", 1: "a"} raises TagNotFoundError *)
-Theorem C18_eq_dict_raises_refuted :
-  exists other c, dict_content_eq other c /\ c_eq_dict other c = Exc ETagNotFound.
-Proof. exact eq_dict_raises. Qed.
-Print Assumptions C18_eq_dict_raises_refuted.
+(* ... and otherwise the only error is the documented FIXMessageError for a compared group tag
+   (never TagNotFoundError), unless the message holds class objects as values *)
+Theorem C18_eq_dict_errors : forall other c,
+  Forall (fun kv => forall k x, snd kv <> VCls k x) (items c) ->
+  forall e, c_eq_dict other c = Exc e -> e = EFIXMessage.
+Proof. exact eq_dict_no_missing. Qed.
+Print Assumptions C18_eq_dict_errors.
 
-(* D18: ... and when both sides hold tag 35 its value is compared although it is "ignored" *)
-Theorem C18_eq_dict_framing_value_refuted :
-  exists other c, dict_content_eq other c /\ c_eq_dict other c = Ok false.
-Proof. exact eq_dict_framing_value. Qed.
-Print Assumptions C18_eq_dict_framing_value_refuted.
-
-Theorem C18_eq_dict_refuted : ~ (forall other c, dict_content_eq other c -> c_eq_dict other c = Ok true).
-Proof. exact eq_dict_full_refuted. Qed.
-Print Assumptions C18_eq_dict_refuted.
+(* the former D18 witnesses on the repaired model *)
+Example C18_repaired_witnesses :
+  c_eq_dict w_dict w_msg = Ok true /\ c_eq_dict w_dict2 w_msg2 = Ok true
+  /\ c_eq_dict [(TInt 1, [98])] w_msg = Ok false
+  /\ c_add_group (TInt 1) (Ok empty) (-1) w_msg = (w_msg, Exc EFIXMessage)
+  /\ c_get_group_by_index (TInt 78) (-3) w_grp = Exc ETagNotFound
+  /\ c_get_group_by_index (TInt 78) (-2) w_grp = Ok empty
+  /\ c_set_group (TStr [120]) (Ok []) empty = (empty, Exc EFIXMessage)
+  /\ c_add_group (TStr []) (Ok empty) (-1) empty = (empty, Exc EFIXMessage).
+Proof. exact repaired_witnesses. Qed.
+Print Assumptions C18_repaired_witnesses.
 
 (* ------------------------------------------------------------------ non-vacuity *)
 
@@ -402,7 +409,7 @@ Example C18_nonvacuous :
   /\ items (var p 0) = items (var p 1)
   /\ items (var p 0) = [([49], VStr [97]); ([55; 56], VGrp [C None [([55; 57], VStr [120])]; C None []])]
   /\ c_get (TFTag ACCOUNT) DRaise (var p 1) = Ok (RvStr [97])
-  /\ framing_free [(TInt 1, [97])] /\ dict_content_eq [(TInt 1, [97])] (C None [([49], VStr [97])])
+  /\ dict_content_eq [(TInt 35, [68]); (TInt 1, [97])] (C None [([49], VStr [97])])
   /\ keys (var p 2) = [[51; 53]; [32; 53]] /\ clean (var p 2) = false.
 Proof. exact nonvacuous. Qed.
 Print Assumptions C18_nonvacuous.
